@@ -21,6 +21,10 @@ type c10Oracle struct {
 	nt        bool
 	feeBlocks int
 	aborted   bool
+	// the proposer named by the header of the previous block, remembered by the oracle (the stored record is
+	// checked against it, not used as the expectation)
+	prevProposer string
+	havePrev     bool
 }
 
 func (o *c10Oracle) after(ch *chain, ci *callInfo) *Violation {
@@ -41,6 +45,18 @@ func (o *c10Oracle) after(ch *chain, ci *callInfo) *Violation {
 		}
 	}
 	if ci.Kind != "begin" {
+		// "exactly once": outside BeginBlock no fee leaves the collector and no queued award is paid or dropped
+		if ci.Before != nil && ci.After != nil && (ci.Kind == "tx" || ci.Kind == "end" || ci.Kind == "commit") {
+			fa := authtypes.NewModuleAddress(authtypes.FeeCollectorName)
+			if ci.After.coinsOf(fa).LT(ci.Before.coinsOf(fa)) {
+				return violf("C10/fees-left-the-collector-outside-beginblock", "%s at height %d (block %d tx %d): the fee collector fell from %s to %s", ci.Kind, ci.Height, ci.BlockIx, ci.TxIx, ci.Before.coinsOf(fa), ci.After.coinsOf(fa))
+			}
+			for a, q := range ci.Before.Awards {
+				if got, ok := ci.After.Awards[a]; !ok || got.LT(q) {
+					return violf("C10/award-queue-shrank-outside-beginblock", "%s at height %d (block %d tx %d): the award queued for %s went from %s to %v", ci.Kind, ci.Height, ci.BlockIx, ci.TxIx, a, q, ci.After.Awards[a])
+				}
+			}
+		}
 		return nil
 	}
 	before, after := ci.Before, ci.After
@@ -59,11 +75,18 @@ func (o *c10Oracle) after(ch *chain, ci *callInfo) *Violation {
 		}
 	}
 	fees := amt(before, feeAddr)
+	prevProposer := o.prevProposer
+	if !o.havePrev {
+		prevProposer = before.Proposer // first observed block (nothing is paid at height 1)
+	}
+	defer func() {
+		o.prevProposer, o.havePrev = hex.EncodeToString(ci.Req.Header.ProposerAddress), true
+	}()
 	if ci.Height > 1 {
 		// all fees collected while executing the previous block go to its proposer, or stay in the pos module account
 		add(feeAddr, fees.Neg())
-		if _, isVal := before.Vals[before.Proposer]; isVal && before.HasProp {
-			add(before.Proposer, fees)
+		if _, isVal := before.Vals[prevProposer]; isVal && (before.HasProp || o.havePrev) {
+			add(prevProposer, fees)
 			o.c.Label("fees-to-proposer")
 		} else {
 			add(posAddr, fees)
@@ -110,14 +133,14 @@ func (o *c10Oracle) after(ch *chain, ci *callInfo) *Violation {
 				sig = "C10/pos-module-account"
 			case poolAddr:
 				sig = "C10/staked-pool-changed-by-awards"
-			case before.Proposer:
+			case prevProposer:
 				sig = "C10/proposer-reward"
 			}
-			if _, isAward := o.awardTo[a]; isAward && a != before.Proposer {
+			if _, isAward := o.awardTo[a]; isAward && a != prevProposer {
 				sig = "C10/award-amount"
 			}
 			return violf(sig, "%s: account %s changed by %s, expected %s (fees of the previous block %s, previous proposer %s known=%v, queued awards %v, burned %s)",
-				where, a, got, w, fees, before.Proposer, before.Vals[before.Proposer].Address != nil, o.awardTo, burned)
+				where, a, got, w, fees, prevProposer, before.Vals[prevProposer].Address != nil, o.awardTo, burned)
 		}
 	}
 	if d := after.supplyOf().Sub(before.supplyOf()); !d.Equal(totalAwards.Sub(burned)) {
